@@ -20,8 +20,8 @@ CLAIMED = {
   text="Deductive proof that Fingerprint is exactly (16-byte src IP, 16-byte dst IP, ports mod 2^16, protocol); every handler looks its allocation up with (request source, local address of the request's socket, UDP) and passes exactly that allocation to every effect; CreateAllocation refuses a duplicate key and changes only its own key; DeleteAllocation removes only its own key; the relay loops write only to the owning 5-tuple's source over its own TurnSocket.",
   ref="9 (C04)", note="Assumed: A1; To16 byte function of net.IP (A14); injectivity of the fingerprint on valid addresses follows from the functional contract and A14, not separately proved.", technique=TECH),
  "C05": dict(
-  text="Deductive proof that the slice handed to the relay socket is the very slice decoded from DATA / the ChannelData payload (same base, offset, length), that HandleRequest classifies a datagram as ChannelData exactly by its first four bytes, that handleDataPacket passes number and payload of the decoded frame, that Encode produces number, length, payload bytes and zero padding (C11), that the relay loop forwards a peer datagram only whole (n = datagram length) with the bound channel number or a Data indication naming the real source address, and that each handler writes at most once.",
-  ref="9 (C05)", note="Assumed: datagram read semantics n = min(L, len(buf)) (specs/net.spec), stun.Build applies its setters faithfully. The server read loop (server.go readLoop) is not under contract yet.", technique=TECH),
+  text="Deductive proof that the slice handed to the relay socket is the very slice decoded from DATA / the ChannelData payload (same base, offset, length), that HandleRequest classifies a datagram as ChannelData exactly by its first four bytes, that handleDataPacket passes number and payload of the decoded frame, that Encode produces number, length, payload bytes and zero padding (C11), that the relay loop forwards a peer datagram only whole (n = datagram length) with the bound channel number or a Data indication naming the real source address, and that each handler writes at most once; the server read loop hands every datagram shorter than the inbound MTU whole and with its true source to HandleRequest and drops one that fills the buffer; the client classifies a datagram as ChannelData by its channel number before looking for the STUN cookie (defect fixed) and delivers inbound ChannelData / Data indications with exactly the frame payload and the bound / named peer address.",
+  ref="9 (C05)", note="Assumed: datagram read semantics n = min(L, len(buf)) (specs/net.spec), stun.Build applies its setters faithfully. In Server.readLoop the precondition of HandleRequest is assumed (assume-callee-pre).", technique=TECH),
  "C06": dict(
   text="Deductive proof of the lifetime arithmetic for all 2^32 LIFETIME values (requested if < 1 h else configured default; exact 64-bit arithmetic), that the same duration is armed in CreateAllocation's timer and reported in the LIFETIME attribute, that Refresh re-arms exactly that duration and lifetime 0 deletes exactly the own 5-tuple before success is sent, that the expiry closure deletes its own allocation, that Close closes the allocation, stops its timer, removes its TCP connections and closes the relay socket, and that DeleteAllocation removes only its key.",
   ref="9 (C06)", note="Assumed: timers fire at their deadline (A2); A1. 'All permissions and channels are gone after Close' is NOT proved (needs a for-all-exists argument the solver does not find); only that no new state appears.", technique=TECH),
@@ -32,8 +32,8 @@ CLAIMED = {
   text="Deductive proof of the one-to-one invariant: AddChannelBind preserves 'numbers pairwise distinct', 'peers pairwise distinct (IP and port)' and 'numbers in 0x4000-0x7FFF', rejects exactly the conflicting binds (under the invariant) with the two conflict errors and leaves bindings and permissions unchanged, the handler maps both conflicts to 400 and rejects out-of-range numbers before binding; lookups return the first match / nil iff none; RemoveChannelBind removes the number.",
   ref="9 (C08)", note="Assumed: A1. The invariant is assumed on entry of each operation and re-established on exit (induction over operations is the standard soundness argument).", technique=TECH),
  "C09": dict(
-  text="Deductive proof of the automatically generated safety obligations (index and slice bounds, nil dereference, nil map write, unchecked type assertion, division by zero, makeslice bounds, explicit panic, close of closed channel) on every path of every /repo function under contract (server request path from HandleRequest down, allocation package, wire codecs, stream framer, relay generators), for all inputs, plus framer progress (a successful frame consumes at least one byte) and loop variants where given.",
-  ref="9 (C09)", note="Partial: panics inside dependencies are assumed away; the server/client read loops and the client's HandleInbound are not under contract yet; 'still serves afterwards' is an argument from no-panic + termination + lock balance, not an obligation.", technique=TECH),
+  text="Deductive proof of the automatically generated safety obligations (index and slice bounds, nil dereference, nil map write, unchecked type assertion, division by zero, makeslice bounds, explicit panic, close of closed channel) on every path of every /repo function under contract (server request path from HandleRequest down, allocation package, wire codecs, stream framer, relay generators), for all inputs, plus framer progress (a successful frame consumes at least one byte), loop variants where given, and for both endpoints: the server's per-socket read loop and the client's Listen loop end only when reading the socket fails (handler errors are logged, the loop continues: client defect fixed), the client's HandleInbound never panics for any bytes from any sender, and delivery to the client's reader / accept queue never blocks (defect fixed).",
+  ref="9 (C09)", note="Partial: panics inside dependencies are assumed away; safety obligations inside Server.readLoop and Manager.Close are assumed (assume-callee-pre) rather than checked; NewServer / readListener (TLS handshake, goroutine spawn) are not under contract; 'still serves afterwards' is an argument from no-panic + loop-continues + lock balance, not a history obligation.", technique=TECH),
  "C12": dict(
   text="Deductive proof on the real client code of the per-step facts the property is made of: a new transaction starts with nRtx 0 and interval RTO and is registered under its base64 transaction id before the first send of a private copy of the request; each timer firing adds exactly one to nRtx, doubles the interval and caps it at 1.6 s, and calls the timeout handler unlocked; the handler resends the same bytes to the same address only while nRtx != 7 and the transaction is still in the table, re-arms the timer with the current interval, and at nRtx == 7 or on a write error removes the entry and writes an error result; a response completes only the transaction found under its own id, after its timer is stopped and its entry removed under Client.mutexTrMap, with exactly that message and source; an unknown id writes nothing; every completion (WriteResult) is made by the execution that removed the entry under the lock (so at most one); Close empties the table and closes every pending result channel; nothing is left in the table when the first send fails (defect fixed).",
   ref="9 (C12)", note="NOT decided (outside the family, listed in evidence): 'never hangs' (the rendezvous on the unbuffered result channel needs a waiting receiver: liveness), real-time behaviour of time.AfterFunc (A2), atomicity of a handler w.r.t. other goroutines beyond what the lock obligations give (A1). The 7-transmission schedule is the composition of the proved per-firing clauses (lemmas C12:schedule).", technique=TECH),
